@@ -221,6 +221,13 @@ func c06Large(c *Ctx) {
 				}
 				var x []byte
 				target := pick(r, []int{9000, 70000, 140000})
+				if r.IntN(2) == 0 && ff != "bed" {
+					x = wellFormedLong(r, ff)
+					target = 0
+				} else if ff == "bed" && r.IntN(2) == 0 {
+					x = wellFormedLong(r, ff)
+					target = 0
+				}
 				for len(x) < target {
 					x = append(x, wellFormed(r, ff, 1+r.IntN(8))...)
 					if ff == "fasta" || ff == "fastq" {
